@@ -13,7 +13,7 @@ def ind(cap, sz, tier):
              bounds='capacity %d, size %d; ARBITRARY ring state under INV (size<=cap, index<cap, size<cap => index==0) with symbolic ids and index; one operation of store/process/set_capacity' % (cap, sz),
              what='inductive step: INV re-established, flush emits the logical sequence; covers histories of any length for this capacity')
 QUERIES = [bmc(2, 6, 'quick'), bmc(1, 5, 'quick')] + [ind(c, z, 'quick') for c in (1, 2, 3) for z in range(c + 1)] + \
-          [bmc(3, 8, 'thorough'), bmc(2, 8, 'thorough', reinit=True)] + [ind(4, z, 'thorough') for z in range(5)]
+          [bmc(3, 8, 'thorough'), bmc(2, 6, 'thorough', reinit=True)] + [ind(4, z, 'thorough') for z in range(5)]
 BOUNDS = 'capacities 1..4; bmc: 5-8 operations from the initial state; ind: one step from any invariant state'
 OUTSIDE = 'capacity 0; the backend branches that call the ring (_process_transit_event) are checked separately; text of the events (TransitEvent payload cut to a 56-byte POD)'
 ASSUMPTIONS = ['TransitEvent move/ctor/dtor and std::string temporaries replaced by shallow models (rt/m_transit.c, rt/m_string_inert.c)']
